@@ -234,6 +234,13 @@ def _short_name(name):
     return _strip_all(name)
 
 
+# calls that merely hand back (a reference into) their receiver
+_THROUGH = re.compile(r"(Deref>::deref$|DerefMut>::deref_mut$|AsRef<.*>>::as_ref$|AsMut<.*>>::as_mut$|"
+                      r"Borrow<.*>>::borrow$|BorrowMut<.*>>::borrow_mut$|pin::Pin::<.*>::get_mut$|"
+                      r"pin::Pin::<.*>::as_mut$|pin::Pin::<.*>::into_ref$|pin::Pin::<.*>::get_ref$|"
+                      r"pin::Pin::<.*>::new$|pin::Pin::<.*>::new_unchecked$|pin::Pin::<.*>::get_unchecked_mut$)")
+
+
 # --------------------------------------------------------------------------- bodies
 
 class Body:
@@ -466,6 +473,15 @@ class Body:
             defs = self.defs_of(l)
             for (b, j, rv) in defs:
                 if j == "term":
+                    nm = rv["f"].get("name") or rv["f"].get("orig_name") or ""
+                    if _THROUGH.search(nm) and rv["args"] and d > 0:
+                        p0 = op_place(rv["args"][0])
+                        if p0 is not None:
+                            if len([e for e in p0[1:] if e != "*"]) == 0:
+                                work.append((p0[0], d - 1))
+                            else:
+                                out.append(("place", p0))
+                            continue
                     out.append(("call", b, rv))
                     continue
                 k = rv[0]
@@ -714,7 +730,7 @@ class Program:
         for b in self.bodies.values():
             for i, t in b.calls():
                 f = t["f"]
-                if rx.search(f.get("name", "")) or rx.search(f.get("orig_name", "")):
+                if rx.search(short_name(f.get("name", ""))) or rx.search(short_name(f.get("orig_name", ""))):
                     out.append((b, i, t))
         return out
 
